@@ -314,6 +314,18 @@ theorem pending_reads_fail_on_loss (a : App) :
     ((∃ cid w n cb, a.consumer = some ⟨cid, w, some n, cb⟩) → Ev.cfail ∈ (connectionLost a).log) :=
   connectionLost_fails_all a
 
+/-- **`connectionLost` does not look at its `reason`.**  In the call skeleton regenerated from /repo no call is
+    made on `reason` (`reason.check(…)`, `reason.trap(…)`, …), the consumer's Deferred is only ever *errbacked*
+    there, and no Deferred is called back — so the model's `connectionLostR` may ignore the reason: a FIN
+    (`ConnectionDone`) cut into the stream anywhere by someone without the key fails the pending consumer-mode
+    read exactly like a reset does (`pending_reads_fail_on_loss`); it never completes it with a short count. -/
+theorem connectionLost_ignores_reason :
+    (∀ p ∈ Gen.C06.skeleton "connectionLost", p.2 ∈ ["self.setTimeout", "error.ConnectionClosed", "d.errback",
+        "BadHandshake", "_consumer_deferred.errback"]) ∧
+    ("if", "_consumer_deferred.errback") ∈ Gen.C06.skeleton "connectionLost" ∧
+    ∀ (a : App) (r : LossReason), connectionLostR a r = connectionLost a := by
+  refine ⟨by decide, by decide, fun _ _ => rfl⟩
+
 /-! ## consumer mode -/
 
 set_option linter.unusedSimpArgs false in
